@@ -359,7 +359,7 @@ func (ps *sparser) mull() Expr {
 
 func (ps *sparser) unary() Expr {
 	t := ps.peek()
-	if t.kind == "op" && (t.val == "!" || t.val == "-" || t.val == "^") {
+	if t.kind == "op" && (t.val == "!" || t.val == "-" || t.val == "^" || t.val == "*") {
 		ps.next()
 		return EUn{t.val, ps.unary()}
 	}
